@@ -79,7 +79,7 @@ pub fn recv(&mut self, stop_timer: &mut Option<Timer>, env: &mut Env) -> (r: Opt
             && (!(*old(stop_timer))->Some_0.is_restart ==> r->Some_0.control is Stop), // OBL:C06+C07+C09.recv.timer_control_carries_flag_and_kind
         // an expired timer is served first, before any queued message, and consumes nothing
         (*old(stop_timer)) is Some && (*old(stop_timer))->Some_0.until.t <= old(env).now@ ==> (*final(stop_timer)) is None
-            && is_prefix_grown(old(env).urgent@, final(env).urgent@) && is_prefix_grown(old(env).high@, final(env).high@) && is_prefix_grown(old(env).normal@, final(env).normal@), // OBL:C06+C09.recv.expired_timer_first
+            && is_prefix_grown(old(env).urgent@, final(env).urgent@) && is_prefix_grown(old(env).high@, final(env).high@) && is_prefix_grown(old(env).normal@, final(env).normal@), // OBL:C06+C09+C05.recv.expired_timer_first
         // while the timer stays armed it is unchanged, and the normal queue is never consumed
         (*old(stop_timer)) is Some ==> is_prefix_grown(old(env).normal@, final(env).normal@), // OBL:C06+C08+C09.recv.normal_held_back_while_armed
         (*old(stop_timer)) is Some && (*final(stop_timer)) is Some ==> (*final(stop_timer))->Some_0.until == (*old(stop_timer))->Some_0.until
@@ -97,7 +97,7 @@ pub fn recv(&mut self, stop_timer: &mut Option<Timer>, env: &mut Env) -> (r: Opt
         !timer_expired(*old(stop_timer), old(env).now@) && old(env).urgent@.len() == 0 && old(env).high@.len() > 0 && (*final(stop_timer)) == (*old(stop_timer)) ==>
             r is Some && (r->Some_0 == old(env).high@[0] || popped_from(old(env).urgent@, final(env).urgent@, r->Some_0)), // OBL:C10+C09+C07.recv.high_before_normal
         // ---- ordering (C10), over the queue contents at the moment a message is taken (messages that arrived while the task was waiting included) ----
-        (*final(stop_timer)) == (*old(stop_timer)) && r is Some ==> 0 <= final(env).picked@ <= 2,
+        (*final(stop_timer)) == (*old(stop_timer)) && r is Some ==> 0 <= final(env).picked@ <= 2, // OBL:C10+C09+C07.recv.a_normal_control_is_taken_only_when_nothing_more_urgent_is_pending
         (*final(stop_timer)) == (*old(stop_timer)) && r is Some && final(env).picked@ == 2 ==> final(env).urgent@.len() == 0 && final(env).high@.len() == 0, // OBL:C10+C09+C07.recv.a_normal_control_is_taken_only_when_nothing_more_urgent_is_pending
         (*final(stop_timer)) == (*old(stop_timer)) && r is Some && final(env).picked@ == 1 ==> final(env).urgent@.len() == 0, // OBL:C10+C09+C07.recv.a_high_control_is_taken_only_when_no_urgent_one_is_pending
         // whatever is returned from a queue is that queue's head and exactly that one message is removed; nothing else is reordered
